@@ -5,7 +5,7 @@ open Eval_model
 let bits_of_hex (s : string) : bool list =   (* LSB first *)
   let bits = ref [] in
   for i = 0 to String.length s - 1 do
-    let d = hexdigit s.[i] in
+    let d = Common.hexdigit s.[i] in
     bits := (d land 1 = 1) :: (d land 2 = 2) :: (d land 4 = 4) :: (d land 8 = 8) :: !bits
   done; !bits
 let rec pos_of_bits (l : bool list) : positive option =
@@ -64,9 +64,142 @@ let handle_acl (which : string) (rest : string list) : string =
       "ok " ^ String.concat " " (List.map one (split_on ',' ip))
   | _ -> failwith "acl request"
 
+(* ---- decimal text <-> Z (schoolbook, no bignum library) ---- *)
+let bits_of_dec (s : string) : bool list =     (* s: decimal digits, non-negative; LSB first *)
+  let d = Array.init (String.length s) (fun i -> Char.code s.[i] - 48) in
+  let n = Array.length d in
+  let bits = ref [] in
+  let start = ref 0 in
+  while !start < n do
+    let carry = ref 0 in
+    for i = !start to n - 1 do
+      let v = !carry * 10 + d.(i) in
+      d.(i) <- v / 2; carry := v mod 2
+    done;
+    bits := (!carry = 1) :: !bits;
+    while !start < n && d.(!start) = 0 do incr start done
+  done;
+  List.rev !bits
+let z_of_dec (s : string) : z =
+  if s <> "" && s.[0] = '-' then
+    (match pos_of_bits (bits_of_dec (String.sub s 1 (String.length s - 1))) with None -> Z0 | Some p -> Zneg p)
+  else (match pos_of_bits (bits_of_dec s) with None -> Z0 | Some p -> Zpos p)
+let dec_of_bits (l : bool list) : string =       (* LSB first *)
+  let digits = ref [0] in                        (* little endian decimal *)
+  List.iter (fun b ->
+    let carry = ref (if b then 1 else 0) in
+    digits := List.map (fun d -> let v = 2 * d + !carry in carry := v / 10; v mod 10) !digits;
+    if !carry > 0 then digits := !digits @ [!carry]) (List.rev l);
+  String.concat "" (List.rev_map string_of_int !digits)
+let dec_of_z (v : z) : string =
+  match v with Z0 -> "0" | Zpos p -> dec_of_bits (bits_of_pos p) | Zneg p -> "-" ^ dec_of_bits (bits_of_pos p)
+
+(* ---- strings ---- *)
+let rec pos_of_int (i : int) : positive =
+  if i = 1 then XH else if i land 1 = 0 then XO (pos_of_int (i lsr 1)) else XI (pos_of_int (i lsr 1))
+let n_of_int i = if i = 0 then N0 else Npos (pos_of_int i)
+let rec int_of_pos = function XH -> 1 | XO p -> 2 * int_of_pos p | XI p -> 2 * int_of_pos p + 1
+let int_of_n = function N0 -> 0 | Npos p -> int_of_pos p
+let str_of_hex (h : string) = List.map (fun i -> n2b (n_of_int i)) (ints_of_hex h)
+let hex_of_str l = hex_of_ints (List.map (fun b -> int_of_n (b2n b)) l)
+
+(* ---- cell values (model-side text; the check translates from/to the harness text) ----
+   I:<dec>:<nan><ninf><pinf>  F:<hex bits>|nan:<flags>  S:<hex>:<notset>  B:<0|1>  R:<dec ns>
+   T:<dec ext>:<dec nsec>:<oob>  P:nil:<notset> | P:<4|6>:<hex>:<notset>  K:nil | K:<hex>
+   A:<hex name>:<entries neg;fam;hexbits;mask,...> *)
+let b01 c = (c = '1')
+let s01 b = if b then "1" else "0"
+
+let val_of (s : string) : val0 =
+  match split_on ':' s with
+  | ["I"; d; f] -> VInt (z_of_dec d, b01 f.[0], b01 f.[1], b01 f.[2])
+  | ["F"; h; f] -> VFloat (sf_of_bits (z_of_hex h), b01 f.[0], b01 f.[1], b01 f.[2])
+  | ["S"; h; n] -> VStr (str_of_hex h, n = "1")
+  | ["B"; b] -> VBool (b = "1")
+  | ["R"; d] -> VRTime (z_of_dec d)
+  | ["T"; ext; ns; oob] -> VTime (z_of_dec ext, z_of_dec ns, oob = "1")
+  | ["P"; "nil"; n] -> VIp (None, n = "1")
+  | ["P"; f; h; n] -> VIp (Some { afam = fam_of f; abits = n_of_hex h }, n = "1")
+  | ["K"; "nil"] -> VBackend None
+  | ["K"; h] -> VBackend (Some (str_of_hex h))
+  | ["A"; h; es] ->
+      let ent e = entry_of (String.map (fun c -> if c = ';' then ':' else c) e) in
+      VAcl (str_of_hex h, (if es = "-" then [] else List.map ent (split_on ',' es)))
+  | _ -> failwith ("bad value " ^ s)
+
+let is_nan_sf (f : spec_float) = match f with S754_nan -> true | _ -> false
+
+let show_val (v : val0) : string =
+  let fl a b c = s01 a ^ s01 b ^ s01 c in
+  match v with
+  | VInt (z, a, b, c) -> "I:" ^ dec_of_z z ^ ":" ^ fl a b c
+  | VFloat (f, a, b, c) -> "F:" ^ (if is_nan_sf f then "nan" else hex_of_z (bits_of_sf f)) ^ ":" ^ fl a b c
+  | VStr (s, n) -> "S:" ^ hex_of_str s ^ ":" ^ s01 n
+  | VBool b -> "B:" ^ s01 b
+  | VRTime z -> "R:" ^ dec_of_z z
+  | VTime (e, n, o) -> "T:" ^ dec_of_z e ^ ":" ^ dec_of_z n ^ ":" ^ s01 o
+  | VIp (None, n) -> "P:nil:" ^ s01 n
+  | VIp (Some a, n) -> "P:" ^ (match a.afam with V4 -> "4" | V6 -> "6") ^ ":" ^ hex_of_n a.abits ^ ":" ^ s01 n
+  | VBackend None -> "K:nil"
+  | VBackend (Some s) -> "K:" ^ hex_of_str s
+  | VAcl (s, _) -> "A:" ^ hex_of_str s
+
+let operand_of (s : string) : operand =
+  { oval = val_of (String.sub s 1 (String.length s - 1)); olit = (s.[0] = 'l') }
+
+let aop_of = function
+  | "set" -> OpSet | "add" -> OpAdd | "sub" -> OpSub | "mul" -> OpMul | "div" -> OpDiv | "rem" -> OpRem
+  | "or" -> OpOr | "and" -> OpAnd | "xor" -> OpXor | "shl" -> OpShl | "shr" -> OpShr | "rol" -> OpRol
+  | "ror" -> OpRor | "lor" -> OpLOr | "land" -> OpLAnd | s -> failwith ("aop " ^ s)
+let bop_of = function
+  | "eq" -> BEq | "ne" -> BNe | "lt" -> BLt | "gt" -> BGt | "le" -> BLe | "ge" -> BGe
+  | "match" -> BMatch | "nmatch" -> BNMatch | "and" -> BAnd | "or" -> BOr | "concat" -> BConcat
+  | s -> failwith ("bop " ^ s)
+
+(* oracle answers obtained by the implementation: pip0= pip1= (net.ParseIP of the left / right
+   string operand), re= (pattern = right string, subject = left string) *)
+let str_of_operand (o : operand) = match o.oval with VStr (s, _) -> Some s | _ -> None
+let oracles (l : operand) (r : operand) (extra : string list) =
+  let get k = List.fold_left (fun acc e ->
+      let kl = String.length k in
+      if String.length e > kl && String.sub e 0 (kl + 1) = k ^ "=" then Some (String.sub e (kl + 1) (String.length e - kl - 1)) else acc) None extra in
+  let addr_opt = function
+    | None -> failwith "missing ParseIP oracle answer"
+    | Some "nil" -> None
+    | Some a -> Some (addr_of a) in
+  let parse_ip (s : byte list) : addr option =
+    if str_of_operand l = Some s then addr_opt (get "pip0")
+    else if str_of_operand r = Some s then addr_opt (get "pip1")
+    else failwith "ParseIP oracle asked about an unknown string" in
+  let re_match (_ : byte list) (_ : byte list) : bool option =
+    match get "re" with Some "1" -> Some true | Some "0" -> Some false | Some "x" -> None
+                      | _ -> failwith "missing regex oracle answer" in
+  (parse_ip, re_match)
+
+let handle_cell (rest : string list) : string =
+  match rest with
+  | kind :: op :: ls :: rs :: extra ->
+      let l = operand_of ls and r = operand_of rs in
+      let (parse_ip, re_match) = oracles l r extra in
+      (match kind with
+       | "a" ->
+           (match local_set parse_ip (aop_of op) l.oval r with
+            | AOk v -> "ok " ^ show_val v
+            | AErr v -> "err " ^ show_val v
+            | ACrash -> "crash")
+       | "o" | "c" ->
+           (match oper parse_ip re_match (bop_of op) l r with
+            | OK v -> "ok " ^ show_val v
+            | Err -> "err"
+            | Crash -> "crash"
+            | OutOfFuel -> "outoffuel")
+       | _ -> failwith "cell kind")
+  | _ -> failwith "cell request"
+
 let handle (req : string) : string =
   match split_on ' ' req with
   | ("acl" | "aclspec" | "aclold" as w) :: rest -> handle_acl w rest
+  | "cell" :: rest -> handle_cell rest
   | _ -> failwith "unknown request"
 
 let () = serve handle
